@@ -948,6 +948,20 @@ fn generate(rng: &mut Rng, tier: &str, w: &mut CaseWriter) {
                             let cut = rng.range(1, enc.len() as u64 - 1) as usize;
                             w.push("nxd", vec![f.to_string(), src.len().to_string(), hex(&enc[..cut]), "-".into()]);
                         }
+                        // the repaired decoder: bytes after the CAT payload are ignored; a packed /
+                        // literal byte set to 0xff (a value outside a 3, 5..15 symbol table is an error)
+                        if (ii + fi) % 5 == 0 {
+                            let mut more = enc.clone();
+                            let extra = rng.range(1, 4) as usize;
+                            more.extend(rng.bytes(extra));
+                            w.push("nxd", vec![f.to_string(), src.len().to_string(), hex(&more), "-".into()]);
+                            if enc.len() >= 2 {
+                                // (never the flag byte itself: 0xff would select the unmodelled STRIPE)
+                                let mut bad = enc.clone();
+                                *bad.last_mut().unwrap() = 0xff;
+                                w.push("nxd", vec![f.to_string(), src.len().to_string(), hex(&bad), "-".into()]);
+                            }
+                        }
                     }
                 }
             }
